@@ -80,6 +80,8 @@ def generate(seed, tier, index):
             steps.append({"op": "d_selects", "dev": "SW", "vec": v["name"], "els": rng.sample(names, k)})
         elif r < 0.93:
             steps.append({"op": "gap", "dt": rng.choice([0.0, 0.001, 0.1, 2.0])})
+            if rng.random() < 0.5:
+                steps[-1]["iters"] = rng.randint(1, 8)
         else:
             steps.append({"op": "settle"})
     net = {"latency": rng.choice(["zero", "lan", "slow", "bursty", "skew"]),
@@ -160,7 +162,7 @@ def execute(scen):
                 sim.settle()
                 continue
             if op == "gap":
-                sim.run_for(st["dt"])
+                sim.gap(st)
                 continue
             if op == "start_client":
                 apply_step(stack, st)
